@@ -1,14 +1,57 @@
 """C18: signals reach exactly the addressed workers, with the signal that was named."""
 FUNCTIONS = [
     'circus.util:to_signum',
+    # confinement: request -> Signal/Kill command -> Watcher -> Process -> psutil handle
+    'circus.process:get_children',
+    'circus.process:Process.send_signal_child',
+    'circus.process:Process.send_signal_children',
+    'circus.watcher:Watcher.send_signal',
+    'circus.watcher:Watcher.send_signal_child',
+    'circus.watcher:Watcher.send_signal_children',
+    'circus.watcher:Watcher.send_signal_process',
+    'circus.watcher:Watcher.call_hook',
+    'circus.commands.base:Command.validate',
+    'circus.commands.base:Command._get_watcher',
+    'circus.commands.sendsignal:Signal.validate',
+    'circus.commands.sendsignal:Signal.execute',
+    'circus.commands.kill:Kill.validate',
+    'circus.commands.kill:Kill.execute',
 ]
 LEMMAS = []
-FRAMES = []
-ASSUMPTIONS = ['A-PY', 'A-STR', 'A-ASCII: \\w and \\d are the ASCII classes in the regex model',
+FRAMES = [
+    {'name': 'kernel-kill-sites', 'kind': 'call',
+     'callee': ['os.kill', 'os.killpg', 'kill', 'killpg', 'terminate', 'send_signal'], 'methods_only': False,
+     'what': 'signals reach the kernel only through psutil send_signal/terminate in Process.send_signal, '
+             'send_signal_child, send_signal_children, stop (SIGTERM to the own worker); Watcher.send_signal, '
+             'send_signal_process, kill_process, _reload (SIGHUP to own workers) and Signal.execute reach those; '
+             'pidfile probes with signal 0',
+     'allowed': ['circus.process:Process.send_signal', 'circus.process:Process.send_signal_child',
+                 'circus.process:Process.send_signal_children', 'circus.process:Process.stop',
+                 'circus.watcher:Watcher.send_signal', 'circus.watcher:Watcher.send_signal_process',
+                 'circus.watcher:Watcher.kill_process', 'circus.watcher:Watcher._reload',
+                 'circus.commands.sendsignal:Signal.execute', 'circus.pidfile:Pidfile.validate'],
+     'exclude_modules': ['circus.plugins', 'circus.stats', 'circus.circusctl', 'circus.client']},
+    {'name': 'worker-writers', 'kind': 'attr_store', 'attr': '_worker',
+     'what': 'Process._worker (the psutil handle; Process.pid is self._worker.pid) is assigned only in '
+             'Process.__init__ (None, then spawn() unless spawn=False, which no circus call site passes) and Process.spawn',
+     'allowed': ['circus.process:Process.__init__', 'circus.process:Process.spawn']},
+    {'name': 'child-signal-callers', 'kind': 'call', 'callee': ['send_signal_child', 'send_signal_children'],
+     'methods_only': True,
+     'what': 'child signalling is reached only from Signal.execute through Watcher.send_signal_child(ren)',
+     'allowed': ['circus.watcher:Watcher.send_signal_child', 'circus.watcher:Watcher.send_signal_children',
+                 'circus.watcher:Watcher.send_signal_process',
+                 'circus.commands.sendsignal:Signal.execute']},
+]
+ASSUMPTIONS = ['A-PY', 'A-STR', 'T-PSUTIL', 'A-HOOKPURE', 'A-ATOMIC-COMP (get_active_pids / get_active_processes)', 'A-WORKERPID', 'A-ASCII: \\w and \\d are the ASCII classes in the regex model',
                'T-SIGTABLE: signal table read from the interpreter running the verifier']
 TRUSTED = ["T-STDLIB re.match / re.fullmatch for the literal pattern (\\w+)(\\+(\\d+))? (pyvc/regex.py)"]
-NOT_DECIDED = ['kernel delivery of the signal']
+NOT_DECIDED = ['kernel delivery of the signal',
+               'request pids that are JSON non-integers (strings, floats, lists): Signal.execute / Kill.execute are '
+               'proved for integer pid (Kill.validate establishes it; Signal.validate does not check it) -- the '
+               'replay adapter exercises non-integer pids as a bounded stand-in only',
+               'Kill: an unvalidated graceful_timeout property (string / negative) is outside the precondition',
+               'the descendant relation is whatever psutil children() reports at the time of the call (T-PSUTIL)']
 DESIGN_REF = 'DESIGN.md section 8, C18'
 TECHNIQUE = 'contract-based deductive verification (pyvc VC generation from the real AST, z3/cvc5)'
-LEVEL_TEXT = 'to_signum against the spec function of signal designations, for every input value.'
-LEVEL_NOTE = 'Trusted: regex model for the one literal pattern, signal table of the running interpreter.'
+LEVEL_TEXT = 'to_signum against the spec function of signal designations for every input value; confinement of every kernel signal issued by signal/kill requests to workers of the named watcher and their descendants, function by function down to the psutil calls.'
+LEVEL_NOTE = 'Trusted: regex model for the one literal pattern, signal table of the running interpreter, psutil children()/send_signal, get_active_pids/get_active_processes comprehension contracts.'
